@@ -290,6 +290,11 @@ impl StreamsState {
         self.send_streams = 0;
         self.data_sent = 0;
         self.connection_blocked.clear();
+        // Nothing sent in 0-RTT is outstanding any more, and the remembered limits are void: the
+        // caller applies the newly negotiated transport parameters next.
+        self.unacked_data = 0;
+        self.max_data = 0;
+        self.streams_blocked = [false; 2];
     }
 
     /// Process incoming stream frame
